@@ -1010,6 +1010,12 @@ def use_rules(ctx):
                       'omitted variables are filled with default values before eval_dependencies runs (%s)' % early, b.site(e0.bb))
 
 
+# eval_dependencies treats "the dependency could not be evaluated yet" as Err from the evaluation kernels:
+# a kernel that swallows a missing variable (seed C04-10: zero-factor shortcut) breaks the clean-failure
+# clause.  The kernels are decided by the C01 rule families, re-decided here.
+RELIES_ON = {'C01': ['C01.lookup', 'C01.fields', 'C01.every-term']}
+
+
 def check(ctx):
     instance_rules(ctx); function_rules(ctx); deps_rules(ctx); use_rules(ctx)
     ctx.floor('C04.instance', 35); ctx.floor('C04.function', 16); ctx.floor('C04.deps', 13); ctx.floor('C04.use', 6)
